@@ -61,6 +61,9 @@ thread_local! {
     pub static CLOSE_HEAVY: std::cell::Cell<bool> = const { std::cell::Cell::new(false) };
     /// set by the C14 stratum: the receiving end changes hands in every run, and often
     pub static TAKEOVER_HEAVY: std::cell::Cell<bool> = const { std::cell::Cell::new(false) };
+    /// 130..229 peers instead of 1..4 (anything the queue does per call "up to some number of
+    /// streams" only shows with more streams than that number)
+    pub static CROWD: std::cell::Cell<bool> = const { std::cell::Cell::new(false) };
 }
 fn w<R>(f: impl FnOnce(&mut World) -> R) -> R {
     W.with(|x| f(x.borrow_mut().as_mut().expect("l1 world")))
@@ -227,10 +230,11 @@ fn foreign(in_window: bool) -> Act {
 }
 
 pub fn run(ctx: &mut Ctx) {
-    let n = 1 + ctx.plan(4) as usize;
+    let crowd = CROWD.with(|c| c.get());
+    let n = if crowd { 130 + ctx.plan(100) as usize } else { 1 + ctx.plan(4) as usize };
     let allow_spurious = ctx.plan_bool();
     let chaos = 60 + ctx.plan(600);
-    let initially_inserted = ctx.plan(n as u64 + 1) as usize;
+    let initially_inserted = if crowd { [n, n, n / 2, 0][ctx.plan(4) as usize] } else { ctx.plan(n as u64 + 1) as usize };
     let do_remove = ctx.plan(4) == 0;
     let coop_on = ctx.plan(3) == 1;
     W.with(|x| {
@@ -374,7 +378,38 @@ pub fn run(ctx: &mut Ctx) {
     w(|w| w.faults_on = false);
     let extra = w(|w| w.extra_tokens);
     let live: Vec<usize> = w(|w| (0..w.peers.len()).filter(|i| w.peers[*i].inserted && !w.peers[*i].closed && !w.peers[*i].removed).collect());
-    if live.len() >= 2 {
+    if crowd {
+        // the crowd goes quiet (everything delivered, the receiver parked), then every peer speaks
+        // at once, twice over
+        for round in 0..2 {
+            let mut guard = 0;
+            loop {
+                guard += 1;
+                let woken = rw_cell.borrow().0.load(Ordering::SeqCst) != seen;
+                if (parked && !woken) || guard > 200_000 {
+                    break;
+                }
+                poll_once(&mut probe, &mut seen, &mut parked, &mut violations, None);
+                if violations.len() > 3 || w(|w| w.spun) {
+                    break;
+                }
+            }
+            for &i in &live {
+                let wk = w(|w| {
+                    let p = &mut w.peers[i];
+                    p.produced += 1;
+                    p.queue.push_back((i as u32) << 24 | p.produced);
+                    p.armed.take()
+                });
+                if let Some(wk) = wk {
+                    wk.wake();
+                }
+            }
+            if round == 0 {
+                ctx.probe("crowd_speaks_after_a_quiet_moment");
+            }
+        }
+    } else if live.len() >= 2 {
         let depth = 3 * n as u32 + 6;
         for &i in &live {
             let wk = w(|w| {
